@@ -24,13 +24,13 @@ type lt struct {
 	A []*lt  `json:"a,omitempty"`
 }
 
-func lStr(s string) *lt              { return &lt{K: "str", S: s} }
-func lDec(s string) *lt              { return &lt{K: "dec", S: s} }
-func lBool(b bool) *lt               { return &lt{K: map[bool]string{true: "true", false: "false"}[b]} }
-func lRef(n string) *lt              { return &lt{K: "ref", S: n} }
-func lParen(e *lt) *lt               { return &lt{K: "paren", A: []*lt{e}} }
-func lNeg(e *lt) *lt                 { return &lt{K: "neg", A: []*lt{e}} }
-func lBin(op string, a, b *lt) *lt   { return &lt{K: "bin", S: op, A: []*lt{a, b}} }
+func lStr(s string) *lt               { return &lt{K: "str", S: s} }
+func lDec(s string) *lt               { return &lt{K: "dec", S: s} }
+func lBool(b bool) *lt                { return &lt{K: map[bool]string{true: "true", false: "false"}[b]} }
+func lRef(n string) *lt               { return &lt{K: "ref", S: n} }
+func lParen(e *lt) *lt                { return &lt{K: "paren", A: []*lt{e}} }
+func lNeg(e *lt) *lt                  { return &lt{K: "neg", A: []*lt{e}} }
+func lBin(op string, a, b *lt) *lt    { return &lt{K: "bin", S: op, A: []*lt{a, b}} }
 func lCall(f string, args ...*lt) *lt { return &lt{K: "call", S: f, A: args} }
 
 // precedence of the alternatives (same ladder in both grammars), higher binds tighter
